@@ -6,6 +6,13 @@ import engine as E, build as B
 import zcklib as Z
 from props import updgen as U, rangeserver as RS
 
+def _run(cmd, **kw):
+    """zckdl under a time limit: a run that does not end (e.g. the same range requested for ever) is a result (exit 124), not a crash of the check"""
+    try:
+        return subprocess.run(cmd, **kw)
+    except subprocess.TimeoutExpired:
+        return subprocess.CompletedProcess(cmd, 124, '', '')
+
 def _chunk_reqs(log, name, hdr_total):
     out = []
     for (n, rng, code) in log:
@@ -54,18 +61,18 @@ def cases(ctx, tier, seed, kill=False, n=30):
                 cnt = os.path.join(cwd, 'count')
                 c2 = os.path.join(ctx['work'], 'dry%d' % i); os.makedirs(c2, exist_ok=True)
                 if tname != 'absent': open(os.path.join(c2, name), 'wb').write(tb)
-                subprocess.run(cmd, cwd=c2, capture_output=True, timeout=60,
+                _run(cmd, cwd=c2, capture_output=True, timeout=60,
                                env=dict(env, LD_PRELOAD=so, KILL_PATH=os.path.join(c2, name), KILL_COUNT=cnt, KILL_K='0'))
                 w = int(open(cnt).read().strip() or 0) if os.path.exists(cnt) else 0
                 shutil.rmtree(c2, ignore_errors=True)
                 if w < 1: continue
                 k = rnd.randrange(1, w + 1); part = rnd.choice('0ha')
-                r0 = subprocess.run(cmd, cwd=cwd, capture_output=True, timeout=60,
+                r0 = _run(cmd, cwd=cwd, capture_output=True, timeout=60,
                                     env=dict(env, LD_PRELOAD=so, KILL_PATH=tp, KILL_K=str(k), KILL_PART=part))
                 killed = ' killed=%d:%s:%d' % (k, part, r0.returncode)
                 before = open(tp, 'rb').read() if os.path.exists(tp) else b''
             mark = len(srv.log)
-            r = subprocess.run(cmd, cwd=cwd, capture_output=True, text=True, timeout=60, env=env)
+            r = _run(cmd, cwd=cwd, capture_output=True, text=True, timeout=60, env=env)
             reqs = _chunk_reqs(srv.log[mark:], name, hdr_total)
             bp = os.path.join(ctx['work'], 'zB%d%s.zck' % (i, 'k' if kill else '')); open(bp, 'wb').write(Bb)
             pre = os.path.join(cwd, name + '.before'); open(pre, 'wb').write(before)
